@@ -20,9 +20,10 @@ let parse_ip (s : string) : ip =
 
 let parse_path (t : string) : path =
   match String.split_on_char '/' t with
-  | ["s"; nh] -> { ptype = n_of_int 1; pstatic = Some (parse_ip nh); pbgp = None }
+  | ["s"; nh; _] | ["s"; nh] -> { ptype = n_of_int 1; pstatic = Some (parse_ip nh); pbgp = None }
   | ["x"; ty] -> { ptype = n_of_int (int_of_string ty); pstatic = None; pbgp = None }
-  | ["b"; lp; aslen; origin; med; ebgp; bgpid; origid; cl; src; nh; pathid; other] ->
+  | "b" :: lp :: aslen :: origin :: med :: ebgp :: bgpid :: origid :: cl :: src :: nh :: pathid :: other :: ign
+    when List.length ign <= 1 ->   (* ign: attributes neither Select nor Compare may read - not in the model *)
     let cl = match cl with
       | "n" -> None
       | "e" -> Some []
